@@ -85,11 +85,19 @@ def _resolve(path: T.Any, dir_fd: T.Any, follow_last: bool) -> str:
     return os.path.join(os.path.realpath(head), tail)
 
 
-def audit_monitor(label: str = 'install') -> T.Callable[[T.Callable[[dict], None]], None]:
-    """A runner.meson monitor: records every mutating file-system event of the process it is installed in."""
+def audit_monitor(label: str = 'install', kill_at: T.Optional[int] = None) -> T.Callable[[T.Callable[[dict], None]], None]:
+    """A runner.meson monitor: records every mutating file-system event of the process it is installed in.
+    kill_at=N: fault injection - the process SIGKILLs itself when its N-th event is about to happen (the audit hook
+    runs before the operation, so event N itself is not carried out)."""
     def install(rec: T.Callable[[dict], None]) -> None:
         state = {'busy': False, 'n': 0}
         pid = os.getpid()
+
+        def maybe_kill() -> None:
+            if kill_at is not None and state['n'] >= kill_at:
+                rec({'ev': 'killed-by-monitor', 'seq': state['n']})
+                import signal as _signal
+                os.kill(pid, _signal.SIGKILL)
 
         def hook(event: str, args: tuple) -> None:
             if state['busy']:
@@ -109,6 +117,7 @@ def audit_monitor(label: str = 'install') -> T.Callable[[T.Callable[[dict], None
                     state['n'] += 1
                     rec({'ev': 'audit', 'op': 'open-write', 'path': _resolve(path, None, True), 'raw': repr(path),
                          'flags': flags, 'seq': state['n']})
+                    maybe_kill()
                 elif event in _PATH_EVENTS:
                     for ai, di, follow in _PATH_EVENTS[event]:
                         if ai >= len(args):
@@ -121,6 +130,7 @@ def audit_monitor(label: str = 'install') -> T.Callable[[T.Callable[[dict], None
                         if event == 'shutil.copyfile':
                             r['src'] = repr(args[0])
                         rec(r)
+                    maybe_kill()
                 else:
                     state['n'] += 1
                     a0 = args[0] if args else None
@@ -585,3 +595,31 @@ def check_uninstalled(pre: T.Mapping[str, list], after: T.Mapping[str, list], le
         if pre[rel][:5] != after[rel][:5]:
             viol.append(('uninstall:modified-foreign', {'path': rel, 'was': pre[rel][:5], 'now': after[rel][:5]}))
     return viol
+
+
+def check_log_after_kill(names: T.Sequence[str], pre: T.Mapping[str, list], post: T.Mapping[str, list], container: str,
+                         not_logged: T.Set[str], in_flight: T.Set[str], max_in_flight: int) -> T.Tuple[T.List[T.Tuple[str, dict]], T.Dict[str, int], T.Set[str]]:
+    """An install that was SIGKILLed: every file/symlink created so far is named by the log (each line is written and
+    flushed right after the object is made), except at most the one object being made when the kill came.
+    Directories are logged only when the installer finishes, so nothing is demanded for them.
+    -> (violations, counters, the tolerated unlisted paths)."""
+    viol: T.List[T.Tuple[str, dict]] = []
+    named = set(names)
+
+    def absof(rel: str) -> str:
+        return container if rel == '.' else os.path.join(container, rel)
+    created = {absof(rel): post[rel] for rel in set(post) - set(pre) if post[rel][0] != 'dir'}
+    unlisted = {p for p in created if p not in named and p not in not_logged}
+    cnt = {'created_nondirs': len(created), 'named': len(names), 'unlisted': len(unlisted)}
+    bad = unlisted - in_flight
+    if len(unlisted) > max_in_flight:
+        bad = unlisted
+    for p in sorted(bad)[:4]:
+        viol.append((f'kill:log-misses-created:{created[p][0]}', {'path': p, 'created_nondirs': len(created), 'log_names': len(names),
+                                                                    'unlisted_total': len(unlisted)}))
+    existing = {absof(rel) for rel in post}
+    for n in names:
+        if n not in existing:
+            viol.append(('kill:log-phantom', {'path': n}))
+            break
+    return viol, cnt, (unlisted - bad)
